@@ -1034,7 +1034,7 @@ nnls_normal_block3(cholmod_sparse *AtA, cholmod_dense *Atb, int verbose,
                                         printf("\tSolution entirely "
                                             "feasible\n");
 
-                        } else if (nF_inf == nF_inf_boundary) {
+                        } else if (nF_inf_boundary > 0) {
                                 /*
                                  * Part of the new solution is negative, but
                                  * the corresponding coefficients in the
@@ -1046,7 +1046,9 @@ nnls_normal_block3(cholmod_sparse *AtA, cholmod_dense *Atb, int verbose,
                                  * and try again.
                                  */
                                 for (i = 0; i < nF; i++) {
-                                        if (((double*)(x_F->x))[i] < 0) {
+                                        if (((double*)(x_F->x))[i] < 0 &&
+                                            ((double*)(x->x))[F[i]] <
+                                            kkt_tolerance) {
                                                 H1[nH1++] = F[i];
                                                 ((double*)(x->x))[F[i]] = 0;
                                         }
